@@ -19,7 +19,7 @@ import rx
 import rx.operators as rxops
 import distogram
 
-from ..common import Check, Outcome, Snap, subscribe, bootstrap, norm, with_prelude, prelude_tags, shrink_prelude, PRELUDE_TAGS
+from ..common import Check, Outcome, Snap, subscribe, bootstrap, norm, with_prelude, prelude_tags, shrink_prelude, PRELUDE_TAGS, PRELUDE_RULE
 from ..muxmon import ttap, tagged_lifetimes
 from .. import progs, model, windows
 
@@ -204,6 +204,7 @@ class C09(Check):
             '(count, sum, mean, min, max, variance with reduce on/off, to_list, to_array, batch, distinct_until_changed, progress, dist.update). Contexts: plain observable, one multiplexed key, '
             'group_by with interleaved keys, roll (w != s and w == s: key slots reused by successive lifetimes), split, time_split with empty windows (empty keys), group_by>roll. '
             'non-trivial = >= 2 key lifetimes with items (and a mutable accumulator for the generic variants); distinct = hash of the case')
+    RULE += PRELUDE_RULE
     ASSUMPTIONS = ['accumulators return values of the seed\'s type; mean(reduce) of an empty key is outside the domain',
                    'dist.update is compared through distogram.count / bounds / mean / bins against a reference fold with the same library']
     ANCHORS = ['rxsci/operators/scan.py', 'rxsci/operators/count.py', 'rxsci/data/to_list.py', 'rxsci/data/to_array.py', 'rxsci/math/dist/__init__.py']
